@@ -64,8 +64,10 @@ func newOrder(id string) *quickfix.Message {
 	return m
 }
 
-func (a *gapp) submit(clid string) {
-	if quickfix.SendToTarget(newOrder(clid), a.id) == nil {
+func (a *gapp) submit(clid string) { a.submitMsg(newOrder(clid)) }
+
+func (a *gapp) submitMsg(m *quickfix.Message) {
+	if quickfix.SendToTarget(m, a.id) == nil {
 		at := atomic.AddInt64(&clock, 1)
 		a.mu.Lock()
 		a.submitted = append(a.submitted, at)
@@ -216,8 +218,16 @@ func runGated(kind, repo string, runID int) (rows []tr.M, err error) {
 			wg.Add(1)
 			go func(g int) {
 				defer wg.Done()
+				// the first sender reuses one Message object for all its submissions, as applications do
+				reused := newOrder("")
 				for k := 0; k < 3; k++ {
-					a.submit(fmt.Sprintf("%s-g%d-%d", tag, g, k))
+					id := fmt.Sprintf("%s-g%d-%d", tag, g, k)
+					if g == 0 {
+						reused.Body.SetString(11, id)
+						a.submitMsg(reused)
+					} else {
+						a.submit(id)
+					}
 				}
 			}(g)
 		}
@@ -232,7 +242,12 @@ func runGated(kind, repo string, runID int) (rows []tr.M, err error) {
 			}
 			from := wlen()
 			atomic.StoreInt32(&a.on, 1)
-			in.Put(inbound("2", peerSeq, fixscan.F(7, "1"), fixscan.F(16, "0")))
+			if r == 0 {
+				// a bounded request (the replay stops before the end of what is stored)
+				in.Put(inbound("2", peerSeq, fixscan.F(7, "2"), fixscan.F(16, "4")))
+			} else {
+				in.Put(inbound("2", peerSeq, fixscan.F(7, "1"), fixscan.F(16, "0")))
+			}
 			peerSeq++
 			wid := fmt.Sprintf("W%s-%d-%d", tag, runID, r)
 			in.Put(inbound("1", peerSeq, fixscan.F(112, wid)))
@@ -258,9 +273,21 @@ func runGated(kind, repo string, runID int) (rows []tr.M, err error) {
 		}
 		return nil
 	}
+	readback := func() map[int][]byte {
+		out := map[int][]byte{}
+		next := rf.st.NextSenderMsgSeqNum()
+		for n := 1; n < next; n++ {
+			if msgs, err := rf.st.MessageStore.GetMessages(n, n); err == nil && len(msgs) == 1 {
+				out[n] = append([]byte(nil), msgs[0]...)
+			}
+		}
+		return out
+	}
 	if err := phase("e1", 2); err != nil {
 		return nil, err
 	}
+	stored := [2]map[int][]byte{}
+	stored[0] = readback()
 	if time.Now().UTC().After(resetAt.Add(-300 * time.Millisecond)) {
 		return nil, fmt.Errorf("%w: the first epoch took too long, the reset time has passed", errAborted)
 	}
@@ -288,6 +315,7 @@ func runGated(kind, repo string, runID int) (rows []tr.M, err error) {
 	case <-readerDone:
 	case <-time.After(2 * time.Second):
 	}
+	stored[1] = readback() // after the run loop has ended (its Logout is the last message on the wire)
 	wmu.Lock()
 	defer wmu.Unlock()
 	rf.st.mu.Lock()
@@ -329,7 +357,9 @@ func runGated(kind, repo string, runID int) (rows []tr.M, err error) {
 			if at, ok := savedAt[n]; ok && pd != "Y" {
 				persisted = at < ev.at && string(savedBytes[n]) == string(ev.b)
 			}
-			w = append(w, tr.M{"n": n, "pd": pd == "Y", "app": !admin, "persisted": persisted})
+			// the store itself (not the recording wrapper) returns exactly these bytes under n at the end of the epoch
+			w = append(w, tr.M{"n": n, "pd": pd == "Y", "app": !admin, "persisted": persisted,
+				"stored": pd == "Y" || string(stored[e][n]) == string(ev.b)})
 		}
 		sub := 0
 		for _, at := range a.submitted {
